@@ -117,6 +117,30 @@ class SimPool:
         SCHED.log.append(('map', n, self.n_workers, order))
         return results, exc
 
+    def imap(self, func, iterable, chunksize=1):
+        r, e = self._run(func, [(x,) for x in iterable], True)
+        if e is not None:
+            raise e
+        return iter(r)
+
+    def imap_unordered(self, func, iterable, chunksize=1):
+        # results are handed out in COMPLETION order (the order the scheduler picked)
+        items = list(iterable)
+        r, e = self._run(func, [(x,) for x in items], True)
+        if e is not None:
+            raise e
+        order = SCHED.log[-1][3]
+        return iter([r[i] for i in order])
+
+    def apply(self, func, args=(), kwds=None):
+        return func(*args, **(kwds or {}))
+
+    def apply_async(self, func, args=(), kwds=None, callback=None, error_callback=None):
+        try:
+            return _AsyncResult(func(*args, **(kwds or {})), None)
+        except Exception as e:
+            return _AsyncResult(None, e)
+
     def map(self, func, iterable, chunksize=None):
         r, e = self._run(func, iterable, False)
         if e is not None:
